@@ -4,7 +4,8 @@ from common import *  # noqa: F401,F403
 RULE = ("random valid knot vectors (degree 0..4, mixed multiplicities, several intervals, big denominators), optional positive "
         "weights; every sub-degree j in 0..p, every parameter in {knots, ends, midpoints, random}; every index form "
         "(int, negative int, slice, [:, j], call), invalid indices.  Non-trivial: degree >= 2 or an interior knot; distinct = "
-        "distinct (U, W, j, parameters).")
+        "distinct (U, W, j, parameters)."
+        " Also: parameters k +- 1e-20 around every knot and the float next to every rational interior knot; every slice form (negative steps, open and explicit stops, empty) against python's own slicing; evaluation after in-place mutation of the shared KnotVector.")
 EXPLANATION = ("L2: Function(U)[:, j](u) vs the model's table+Horner row; L3: vs the Cox-de Boor recursion `cdb` run by the driver, "
                "plus non-negativity, support and partition of unity checked on the implementation's own values.")
 ASSUMPTIONS = ["weights positive"]
